@@ -82,7 +82,7 @@ let def_name = function
   | SchemaReg.DefErr SchemaReg.AlreadyDefined -> "AlreadyDefined"
   | SchemaReg.DefErr SchemaReg.EmptySchema -> "EmptySchema"
 
-let the_type = bytes_of_hex "7674"  (* the model's name for "the type this case defined" *)
+let the_type = bytes_of_hex "767430"  (* the model's name for "the type this case defined" *)
 
 let etype_of tok = if tok = "=" then the_type else bytes_of_hex tok
 
